@@ -1374,3 +1374,23 @@ TABLE["C06"] += [
     B("free-function-callee-without-its-name", {"M10"},
       (MW, "            method_name = self._format_global_function(method, '::')\n            method_name += method.name\n", "            method_name = self._format_global_function(method, '::')\n")),
 ]
+TABLE["C17"] += [
+    B("empty-docstring-whenever-there-are-candidates", {"Q4"},
+      (XP, "        if not member_defs or documenting_index >= len(member_defs):", "        if member_defs or documenting_index >= len(member_defs):")),
+    B("counter-engaged-for-a-single-candidate", {"Q5"},
+      (XP, "        if len(member_defs) > 1:", "        if len(member_defs) >= 1:")),
+    B("optional-parameters-to-skip-never-recorded", {"Q4"},
+      (XP, "                    ignored_params.append(declname.text)\n", "                    pass\n")),
+    N("empty-docstring-guard-as-length-tests",
+      (XP, "        if not member_defs or documenting_index >= len(member_defs):", "        if len(member_defs) == 0 or not documenting_index < len(member_defs):")),
+]
+TABLE["C03"] += [
+    B("include-lines-above-the-top-namespace-dropped", {"A10"},
+      (PW, "                    include = include.replace('<', '\"').replace('>', '\"')\n                    includes += include\n                if isinstance(element, parser.Namespace):", "                    include = include.replace('<', '\"').replace('>', '\"')\n                if isinstance(element, parser.Namespace):")),
+    B("enum-bindings-computed-and-dropped", {"A10"},
+      (PW, "                elif isinstance(element, parser.Enum):\n                    wrapped += self.wrap_enum(element)", "                elif isinstance(element, parser.Enum):\n                    self.wrap_enum(element)")),
+]
+TABLE["C16"] += [
+    B("submodule-switch-on-by-default", {"Y3"},
+      ("scripts/pybind_wrap.py", "    arg_parser.add_argument(\"--is_submodule\",\n                            default=False,", "    arg_parser.add_argument(\"--is_submodule\",\n                            default=True,")),
+]
